@@ -115,8 +115,11 @@ def _mk_xf(tree, name, opt, box=None, budget=None):
     an = names("p", xforms.xf_nargs(name, opt))
     pre = pre + xforms.xf_pre(name, opt, an)
     label = name + "(" + ",".join("%s=%s" % kv for kv in sorted(opt.items())) + ")"
-    return Ob("xf/%s/%s" % (str(box or tree).replace(" ", ""), label.replace(" ", "")), "xform_mirror",
-              dict(tree=tree, xf=name, opt=opt, depth=d, box=box), ps + an, pre, budget=budget)
+    ob = Ob("xf/%s/%s" % (str(box or tree).replace(" ", ""), label.replace(" ", "")), "xform_mirror",
+            dict(tree=tree, xf=name, opt=opt, depth=d, box=box), ps + an, pre, budget=budget)
+    if not box and opt.get("depth", 0) >= 1 and not name.startswith("updateCoords"):
+        ob.tags["alldefault_sub"] = alldefault_sub_expr(tree, ps)
+    return ob
 
 
 def xf_list(tier):
